@@ -168,6 +168,48 @@ def compReadE (h : Nat) (E : Enc) (decompress : Bytes → Option Bytes) (data : 
                     (List.range blockSizes.length)
   some (parts.flatMap id)
 
+/-! ### 2b. what is stored for a compressed array, and the matrix of array encodings -/
+
+/-- what a VTK library stores for a compressed array whose payload is the concatenation of `blocks`:
+    the header `[#blocks, block size, size of the last block, compressed size of block 1 … n]` as ONE encoded
+    stream, followed by the compressed blocks as a second encoded stream.  `compress` is the codec (parameter);
+    the reader ignores the entries `bsz` and `last` -/
+def encodeCompE (h : Nat) (E : Enc) (compress : Bytes → Bytes) (bsz last : Nat) (blocks : List Bytes) : List Nat :=
+  let comp := blocks.map compress
+  E.encode (itemsToBytes h ([blocks.length, bsz, last] ++ comp.map List.length)) ++ E.encode comp.flatten
+
+/-- a payload cut into blocks of `bsz` bytes (the last one may be shorter); the fuel is the payload length -/
+def chunksAux (bsz : Nat) : Nat → Bytes → List Bytes
+  | 0, _ => []
+  | fuel + 1, bs => if bs.isEmpty then [] else bs.take bsz :: chunksAux bsz fuel (bs.drop bsz)
+
+def chunks (bsz : Nat) (bs : Bytes) : List Bytes := chunksAux bsz bs.length bs
+
+/-- the compressed array as the writers produce it: blocks of `bsz` bytes -/
+def encodeComp (h : Nat) (E : Enc) (compress : Bytes → Bytes) (bsz : Nat) (payload : Bytes) : List Nat :=
+  encodeCompE h E compress bsz (payload.length % bsz) (chunks bsz payload)
+
+/-- one cell of the matrix of binary array encodings: header type (4 = UInt32, 8 = UInt64), base64 (inline or
+    appended) or raw (appended), uncompressed or compressed with blocks of `bsz` bytes -/
+structure ArrCfg where
+  h : Nat
+  b64 : Bool
+  comp : Option Nat
+deriving Repr, DecidableEq
+
+def ArrCfg.enc (c : ArrCfg) : Enc := if c.b64 then b64E else rawE
+
+def encodeArr (c : ArrCfg) (compress : Bytes → Bytes) (payload : Bytes) : List Nat :=
+  match c.comp with
+  | none => encodeE c.h c.enc payload
+  | some bsz => encodeComp c.h c.enc compress bsz payload
+
+/-- `self._compressor.get_decompressed_data(data, encoder)` -/
+def readArr (c : ArrCfg) (decompress : Bytes → Option Bytes) (data : List Nat) : Option Bytes :=
+  match c.comp with
+  | none => noCompReadE c.h c.enc data
+  | some _ => compReadE c.h c.enc decompress data
+
 /-- items of `size` bytes, then the length assertion against the declared number of items -/
 def checkDeclared (size declared : Nat) (bytes : Option Bytes) : Option (List Nat) :=
   match bytes with
